@@ -749,6 +749,10 @@ pub fn monitor(fs: &SimFs, drv: &mut crate::drv::Drv) -> (usize, Option<String>)
         let mut added: std::collections::BTreeMap<String, std::collections::BTreeSet<String>> = Default::default();
         for (tok, oplog_idx) in &stream {
             let p: Vec<&str> = tok.split(':').collect();
+            if p.len() == 2 && p[0] == "cm" {
+                // the manifest file is created (or re-created after a failed attempt): it starts empty
+                added.remove(p[1]);
+            }
             if p.len() == 5 && p[0] == "am" && p[3] != "_" {
                 let set = added.entry(p[1].to_string()).or_default();
                 for pair in p[3].split(',') {
